@@ -24,8 +24,8 @@ structure TableOK (T : Table) : Prop where
   /-- the `_clear_cache` bodies of a model's modules together remove every slot the model can hold -/
   complete : ∀ k ∈ Kind.all, ∀ sl ∈ slotsOf k, (allClearEffects T k).any (·.cleared sl) = true
   /-- `set_train_data` removes every data-dependent slot of an exact GP -/
-  set_train_data : ∀ k ∈ Kind.all, k.isExact = true → ∀ sl ∈ slotsOf k, dataSensitive sl = true →
-      T.setTrainData.any (·.cleared sl) = true
+  set_train_data : ∀ k ∈ Kind.all, k.isExact = true → ∀ a ∈ DataArgs.all, ∀ sl ∈ slotsOf k, dataSensitive sl = true →
+      (T.setTrainData a.inputs a.targets).any (·.cleared sl) = true
   /-- `_VariationalStrategy.__call__` clears in training mode (non-prior call) … -/
   var_call : T.varCallClears true false = true
   /-- … and what it clears is the whole memo table of the strategy -/
@@ -35,6 +35,8 @@ structure TableOK (T : Table) : Prop where
   attrs_eval_only : ∀ k ∈ Kind.all, attrsActive T k true = []
   /-- the attribute caches are slots of the model, and none of them is the strategy attribute -/
   attrs_in_slots : ∀ k ∈ Kind.all, ∀ sl ∈ attrsActive T k false, sl ∈ slotsOf k ∧ (sl == sStrat) = false
+  /-- the re-whitening of parameters loaded from an old-format state dict empties the memo table afterwards -/
+  legacy : T.legacyConversionClears = true
   /-- a strategy object built under the other `lazily_evaluate_kernels` setting is not reused -/
   keyed : T.strategyKeyedOnLazy = true
   /-- `get_fantasy_model` refuses to run without a strategy -/
@@ -47,17 +49,18 @@ instance (T : Table) : Decidable (TableOK T) :=
   decidable_of_iff
     (T.trainClears true false = true ∧ T.loadClears = true ∧
      (∀ k ∈ Kind.all, ∀ sl ∈ slotsOf k, (allClearEffects T k).any (·.cleared sl) = true) ∧
-     (∀ k ∈ Kind.all, k.isExact = true → ∀ sl ∈ slotsOf k, dataSensitive sl = true →
-        T.setTrainData.any (·.cleared sl) = true) ∧
+     (∀ k ∈ Kind.all, k.isExact = true → ∀ a ∈ DataArgs.all, ∀ sl ∈ slotsOf k, dataSensitive sl = true →
+        (T.setTrainData a.inputs a.targets).any (·.cleared sl) = true) ∧
      T.varCallClears true false = true ∧
      (∀ k ∈ Kind.all, k.isExact = false → ∀ sl ∈ slotsOf k,
         (T.info (varClass k)).clearCache.any (·.cleared sl) = true) ∧
      (∀ k ∈ Kind.all, attrsActive T k true = []) ∧
      (∀ k ∈ Kind.all, ∀ sl ∈ attrsActive T k false, sl ∈ slotsOf k ∧ (sl == sStrat) = false) ∧
+     T.legacyConversionClears = true ∧
      T.strategyKeyedOnLazy = true ∧ T.fantasyNeedsStrategy = true ∧ T.fantasyRestoreInFinally = true ∧
      T.fantasyNulled.all (T.fantasyRestored.contains ·) = true)
-    ⟨fun ⟨a, b, c, d, e, f, g, h, i, j, k, l⟩ => ⟨a, b, c, d, e, f, g, h, i, j, k, l⟩,
-     fun ⟨a, b, c, d, e, f, g, h, i, j, k, l⟩ => ⟨a, b, c, d, e, f, g, h, i, j, k, l⟩⟩
+    ⟨fun ⟨a, b, c, d, e, f, g, h, m, i, j, k, l⟩ => ⟨a, b, c, d, e, f, g, h, m, i, j, k, l⟩,
+     fun ⟨a, b, c, d, e, f, g, h, m, i, j, k, l⟩ => ⟨a, b, c, d, e, f, g, h, m, i, j, k, l⟩⟩
 
 /-! ### Store predicates -/
 
@@ -398,6 +401,38 @@ theorem callPosterior_answer (hk : s.kind.isExact = true) (htr : s.training = fa
   have := hfresh sl e he
   exact ⟨e, he, this.1, this.2⟩
 
+theorem convert_fields : (convert T s).kind = s.kind ∧ (convert T s).training = s.training ∧
+    (convert T s).dv = s.dv ∧ (convert T s).hasData = s.hasData ∧ (convert T s).pv = (if s.converts then s.pv + 1 else s.pv) := by
+  unfold convert
+  split <;> simp_all
+
+/-- the legacy re-whitening block preserves the invariant (it ends by emptying the memo table) -/
+theorem convert_inv : Inv (convert T s) := by
+  unfold convert
+  split
+  · rename_i hc
+    have hk : s.kind = .svgp := by
+      unfold State.converts at hc
+      simp only [Bool.and_eq_true, beq_iff_eq] at hc
+      exact hc.2
+    have hsupp : SuppS s.kind (touchAll s.store (fun _ => newEntry s false) [sChol, sVarDist]) := by
+      apply hI.supp.touchAll
+      intro sl hsl
+      rw [hk]
+      simp only [List.mem_cons, List.not_mem_nil, or_false] at hsl
+      rcases hsl with h | h <;> subst h <;> decide
+    have hnone : ∀ sl, clearBy [Effect.clearMemo] (touchAll s.store (fun _ => newEntry s false) [sChol, sVarDist]) sl = none := by
+      apply clearBy_all_none hsupp
+      rw [hk]
+      decide
+    simp only [hT.legacy, if_true]
+    refine ⟨hI.data, hsupp.clearBy _, fun _ => FreshS.of_none hnone, ?_⟩
+    intro _ hs
+    simp only at hs
+    rw [hnone] at hs
+    simp at hs
+  · exact hI
+
 theorem callVar_store_fresh (c : Cell) (hk : s.kind.isExact = false) :
     FreshS s.pv s.dv (callVar T s c).1.store ∧ SuppS s.kind (callVar T s c).1.store := by
   unfold callVar
@@ -468,12 +503,14 @@ theorem call_inv (c : Cell) (prior : Bool) : Inv (call T s c prior).1 := by
     simp only [Bool.false_eq_true, if_false]
     cases prior with
     | true => simpa using hI
-    | false => simpa using callVar_inv hT hI c hk
+    | false =>
+      have hk' : (convert T s).kind.isExact = false := by rw [(convert_fields hT hI).1]; exact hk
+      simpa using callVar_inv hT (convert_inv hT hI) c hk'
 
 /-- **The answer of a call** in a state satisfying the invariant is the closed form `specAnswer`. -/
 theorem call_answer (c : Cell) (prior : Bool) :
-    (call T s c prior).2 = specAnswer T s.kind s.training s.pv s.dv c prior := by
-  unfold call specAnswer
+    (call T s c prior).2 = specAnswer T s.kind s.training (callPv s prior) s.dv c prior := by
+  unfold call specAnswer callPv
   cases hk : s.kind.isExact with
   | true =>
     simp only [if_true]
@@ -481,6 +518,7 @@ theorem call_answer (c : Cell) (prior : Bool) :
     | true =>
       simp only [if_true]
       rw [callKernelOnly_training hT hI htr]
+      simp
     | false =>
       simp only [Bool.false_eq_true, if_false, hI.data, Bool.not_true, Bool.or_false]
       cases prior with
@@ -490,12 +528,17 @@ theorem call_answer (c : Cell) (prior : Bool) :
     simp only [Bool.false_eq_true, if_false]
     cases prior with
     | true => simp
-    | false => simpa using callVar_answer hT hI c hk
+    | false =>
+      have hk' : (convert T s).kind.isExact = false := by rw [(convert_fields hT hI).1]; exact hk
+      obtain ⟨fk, ft, fd, _, fp⟩ := convert_fields hT hI
+      have := callVar_answer hT (convert_inv hT hI) c hk'
+      rw [fk, ft, fd, fp] at this
+      simpa [hk] using this
 
 theorem call_fields (c : Cell) (prior : Bool) :
     (call T s c prior).1.kind = s.kind ∧ (call T s c prior).1.training = s.training ∧
-    (call T s c prior).1.pv = s.pv ∧ (call T s c prior).1.dv = s.dv := by
-  unfold call callKernelOnly callPosterior callVar withStrategy
+    (call T s c prior).1.dv = s.dv := by
+  unfold call callKernelOnly callPosterior callVar withStrategy convert
   repeat' split
   all_goals simp
 
